@@ -1,14 +1,24 @@
 // C13 — Thread start/join/finished, ThreadGroup, parallel_for / parallel_invoke, Semaphore and Condition under the
 // controlled scheduler: every schedule (or every schedule within a preemption bound) of each small scenario.
+//
+// Oracles: run counts / captured values / visibility at the moment join() (or parallel_*) returns, finished() afterwards,
+// deadlock and livelock (lost post / signal), return values of timed waits against the virtual clock, refused joins
+// (join on an empty, detached or already joined handle: vsched strict joins), and AddressSanitizer with
+// detect_stack_use_after_return switched on for this binary (a thread that outlives the frame its context or its Thread
+// object lived in), read after the execution has drained its remaining threads.
 #include <asl/Thread.h>
 #include <asl/Mutex.h>
+#include <asl/Array.h>
 #include <set>
 #include "vf.h"
 #include "vsched.h"
 using namespace asl;
 using vf::fmt;
 
-static int C_EXEC, C_POINTS, C_JOBS, W_PREEMPT, C_STATES, W_WORKER_FIRST, W_TIMEOUT;
+extern "C" void* __asan_get_current_fake_stack(void) __attribute__((weak));
+
+static int C_EXEC, C_POINTS, C_JOBS, W_PREEMPT, C_STATES, W_WORKER_FIRST, W_TIMEOUT, W_EARLY, W_SEM_TO, W_SEM_BOTH_TO, W_SEM_ACQ, W_COND_TO, W_COND_SIG,
+	C_EXPECT_PRE, C_WITH_PRE, C_SKIPPED, W_UAR, W_CREATOR_FIRST, W_TRY_FAIL, W_TRY_OK, W_YIELD_FORCED, W_DEFAULT_NTH, W_COPY_RUNNING, W_ALL_BEHIND, W_READY_POINT = -1;
 static std::string g_case;
 static void onFatal(const char* what, const std::string& schedule) {
 	std::string w = what; for (size_t i = 0; i < w.size(); i++) w[i] = (char)tolower(w[i]);
@@ -18,31 +28,95 @@ static void onFatal(const char* what, const std::string& schedule) {
 }
 
 // all state that scenarios touch; reset per execution
-static volatile int g_runs[16], g_value, g_hits[64];
+static volatile int g_runs[16], g_value, g_hits[64], g_cap[4];
+static int g_timeouts; // timed waits that reported a timeout in this execution
 static int g_body; // 0 empty, 1 yield, 2 write-then-yield, 3 yield-then-write
 static void bodyFn(int idx) { if (g_body == 1 || g_body == 3) vsched::point(); g_value = 42; g_runs[idx]++; if (g_body == 2) vsched::point(); }
+static void plainFn() { bodyFn(0); }
 struct SubThread : public Thread { int idx; SubThread(int i = 0) : idx(i) {} void run() { bodyFn(idx); } };
+struct Functor { int k; void operator()() const { if (g_body == 1 || g_body == 3) vsched::point(); g_cap[0] = k; g_value = 42; g_runs[0]++; if (g_body == 2) vsched::point(); } };
+// what a creator typically does next: its stack below the current frame is reused
+static __attribute__((noinline, no_sanitize_address)) void clobberStack() { volatile char buf[2048]; for (int i = 0; i < 2048; i++) buf[i] = 0x5a; }
 
-struct Scenario { std::string name; std::function<std::string()> body; int bound; }; // body returns "" when every assertion holds
+struct Scenario { std::string name; std::function<std::string()> body; int bound; bool threads; std::string sig; Scenario() : bound(-1), threads(true), sig("thread_contract") {} }; // body returns "" when every assertion holds
 
 static std::string chk(bool c, const char* what) { return c ? "" : std::string(what) + "; "; }
+static std::string ranOnce(int i, const char* who) { return g_runs[i] == 1 ? "" : fmt("%s had run %d time(s) when join() returned, expected exactly once; ", who, (int)g_runs[i]); }
+static std::string visible() { return chk(g_value == 42, "effect of the thread function not visible after join()"); }
+
+// Semaphore::wait(timeout): true = acquired. In the model a wait ends either by a post or by the clock reaching its deadline.
+static bool semTimed(Semaphore& s, double timeout, std::string& bad) {
+	double t0 = vsched::vnow();
+	bool r = s.wait(timeout);
+	bool expired = vsched::vnow() - t0 >= timeout - 1e-3;
+	if (!r) g_timeouts++;
+	vf::add(r ? W_SEM_ACQ : W_SEM_TO);
+	if (r == expired) bad += fmt("Semaphore::wait(%g) returned %s although the wait %s; ", timeout, r ? "true (acquired)" : "false (timed out)", expired ? "ran into its timeout" : "was ended by a post before its timeout");
+	return r;
+}
+// Condition::wait(timeout): true = timed out. A wait that was ended by signal() must not be reported as a timeout (a lost signal for the caller).
+static bool condTimed(Condition& c, double timeout, std::string& bad) {
+	double t0 = vsched::vnow();
+	bool to = c.wait(timeout);
+	bool expired = vsched::vnow() - t0 >= timeout - 1e-3;
+	if (to) g_timeouts++;
+	vf::add(to ? W_COND_TO : W_COND_SIG);
+	if (to && !expired) bad += fmt("Condition::wait(%g) reported a timeout although it was woken by signal() before the timeout; ", timeout);
+	return to;
+}
 
 static std::vector<Scenario> scenarios(bool T) {
 	std::vector<Scenario> v;
 	for (int b = 0; b < 4; b++) {
-		{ Scenario s; s.name = fmt("subclass.body%d", b); s.bound = -1; s.body = [b]() { g_body = b; SubThread t(0); t.start(); t.join(); return chk(g_runs[0] == 1, "run() did not execute exactly once before join() returned") + chk(g_value == 42, "effect of run() not visible after join()") + chk(t.finished(), "finished() is false after join()"); }; v.push_back(s); }
-		{ Scenario s; s.name = fmt("lambda.body%d", b); s.bound = -1; s.body = [b]() { g_body = b; Thread t([]() { bodyFn(0); }); t.join(); return chk(g_runs[0] == 1, "lambda did not execute exactly once before join() returned") + chk(g_value == 42, "effect not visible after join()") + chk(t.finished(), "finished() is false after join() of a lambda thread"); }; v.push_back(s); }
-		{ Scenario s; s.name = fmt("subclass_poll.body%d", b); s.bound = -1; s.body = [b]() { g_body = b; SubThread t(0); t.start(); bool f1 = t.finished(); int r1 = g_runs[0]; t.join(); return chk(!f1 || r1 == 1, "finished() was true before run() completed") + chk(t.finished() && g_runs[0] == 1, "finished()/run count after join()"); }; v.push_back(s); }
-		{ Scenario s; s.name = fmt("two_subclass.body%d", b); s.bound = -1; s.body = [b]() { g_body = b; SubThread t1(0), t2(1); t1.start(); t2.start(); t1.join(); bool ok1 = g_runs[0] == 1; t2.join(); return chk(ok1 && g_runs[1] == 1, "each thread must have run exactly once when its join() returns") + chk(t1.finished() && t2.finished(), "finished() after join()"); }; v.push_back(s); }
+		{ Scenario s; s.name = fmt("subclass.body%d", b); s.body = [b]() { g_body = b; SubThread t(0); t.start(); t.join(); return chk(g_runs[0] == 1, "run() did not execute exactly once before join() returned") + chk(g_value == 42, "effect of run() not visible after join()") + chk(t.finished(), "finished() is false after join()"); }; v.push_back(s); }
+		{ Scenario s; s.name = fmt("lambda.body%d", b); s.body = [b]() { g_body = b; Thread t([]() { bodyFn(0); }); t.join(); return chk(g_runs[0] == 1, "lambda did not execute exactly once before join() returned") + chk(g_value == 42, "effect not visible after join()") + chk(t.finished(), "finished() is false after join() of a lambda thread"); }; v.push_back(s); }
+		{ Scenario s; s.name = fmt("subclass_poll.body%d", b); s.body = [b]() { g_body = b; SubThread t(0); t.start(); bool f1 = t.finished(); int r1 = g_runs[0]; if (f1) vf::add(W_WORKER_FIRST); else vf::add(W_CREATOR_FIRST); t.join(); return chk(!f1 || r1 == 1, "finished() was true before run() completed") + chk(t.finished() && g_runs[0] == 1, "finished()/run count after join()"); }; v.push_back(s); }
+		{ Scenario s; s.name = fmt("two_subclass.body%d", b); s.body = [b]() { g_body = b; SubThread t1(0), t2(1); t1.start(); t2.start(); t1.join(); bool ok1 = g_runs[0] == 1; t2.join(); return chk(ok1 && g_runs[1] == 1, "each thread must have run exactly once when its join() returns") + chk(t1.finished() && t2.finished(), "finished() after join()"); }; v.push_back(s); }
+		// the lambda carries a value and a reference: both must reach the thread intact although the creator's context is gone by then
+		{ Scenario s; s.name = fmt("lambda_capture.body%d", b); s.body = [b]() {
+			g_body = b; int k = 1000 + b; volatile int x = 0;
+			Thread t([k, &x]() { if (g_body == 1 || g_body == 3) vsched::point(); g_cap[0] = k; x = k + 1; g_value = 42; g_runs[0]++; if (g_body == 2) vsched::point(); });
+			clobberStack();
+			t.join();
+			return ranOnce(0, "the lambda") + visible() + chk(g_cap[0] == k, "the value captured by the lambda did not reach the thread intact") + chk(x == k + 1, "the write through the captured reference is not visible after join()") + chk(t.finished(), "finished() is false after join() of a lambda thread"); }; v.push_back(s); }
+		// finished() of a lambda thread polled before join(): true only once the function has completed
+		{ Scenario s; s.name = fmt("lambda_poll.body%d", b); s.body = [b]() { g_body = b; Thread t([]() { bodyFn(0); }); bool f1 = t.finished(); int r1 = g_runs[0]; if (f1) vf::add(W_WORKER_FIRST); else vf::add(W_CREATOR_FIRST); t.join(); return chk(!f1 || r1 == 1, "finished() of a lambda thread was true before the function completed") + chk(t.finished() && g_runs[0] == 1, "finished()/run count after join() of a lambda thread"); }; v.push_back(s); }
+		// function pointer and stateful function object as thread function
+		{ Scenario s; s.name = fmt("fnptr.body%d", b); s.body = [b]() { g_body = b; Thread t(&plainFn); clobberStack(); t.join(); return ranOnce(0, "the function") + visible() + chk(t.finished(), "finished() is false after join() of a function thread"); }; v.push_back(s); }
+		{ Scenario s; s.name = fmt("functor.body%d", b); s.body = [b]() { g_body = b; Functor f; f.k = 77 + b; Thread t(f); f.k = -1; clobberStack(); t.join(); return ranOnce(0, "the function object") + visible() + chk(g_cap[0] == 77 + b, "the thread did not run on its own copy of the function object") + chk(t.finished(), "finished() is false after join() of a function-object thread"); }; v.push_back(s); }
+		// static Thread::start(f, &t): the three ways its result can be used
+		{ Scenario s; s.name = fmt("start_static_ret.body%d", b); s.body = [b]() { g_body = b; Thread t; Thread u = Thread::start([]() { bodyFn(0); }, &t); clobberStack(); u.join(); return ranOnce(0, "the function given to Thread::start(f, &t)") + visible() + chk(t.finished() || u.finished(), "neither t nor the returned Thread reports finished() after join()"); }; v.push_back(s); }
+		{ Scenario s; s.name = fmt("start_static_obj.body%d", b); s.body = [b]() { g_body = b; Thread t; Thread::start([]() { bodyFn(0); }, &t); clobberStack(); t.join(); return ranOnce(0, "the function given to Thread::start(f, &t)") + visible() + chk(t.finished(), "t.finished() is false after Thread::start(f, &t); t.join()"); }; v.push_back(s); }
+		{ Scenario s; s.name = fmt("start_static_assign.body%d", b); s.body = [b]() { g_body = b; Thread t; t = Thread::start([]() { bodyFn(0); }, &t); clobberStack(); t.join(); return ranOnce(0, "the function given to Thread::start(f, &t)") + visible() + chk(t.finished(), "t.finished() is false after t = Thread::start(f, &t); t.join()"); }; v.push_back(s); }
+		// copying a Thread transfers the handle: the copy is the one to join, the thread keeps running on the object it was started on
+		{ Scenario s; s.name = fmt("copy_ctor_subclass.body%d", b); s.body = [b]() { g_body = b; SubThread t(0); t.start(); bool running = !t.finished(); SubThread u(t); if (running) vf::add(W_COPY_RUNNING); u.join(); return ranOnce(0, "run()") + visible() + chk(t.finished(), "finished() of the object the thread runs on is false after join() through the copy"); }; v.push_back(s); }
+		{ Scenario s; s.name = fmt("copy_assign_subclass.body%d", b); s.body = [b]() { g_body = b; SubThread t(0), u(5); t.start(); u = t; u.join(); return ranOnce(0, "run()") + visible() + chk(g_runs[5] == 0, "the thread ran on the wrong object") + chk(t.finished(), "finished() of the object the thread runs on is false after join() through the assigned copy"); }; v.push_back(s); }
+		{ Scenario s; s.name = fmt("copy_ctor_lambda.body%d", b); s.body = [b]() { g_body = b; Thread t([]() { bodyFn(0); }); Thread u(t); clobberStack(); u.join(); return ranOnce(0, "the lambda") + visible() + chk(t.finished(), "finished() of the object the lambda thread was created on is false after join() through the copy"); }; v.push_back(s); }
+		{ Scenario s; s.name = fmt("array_lambda.body%d", b); s.body = [b]() { g_body = b; Array<Thread> a; a << Thread([]() { bodyFn(0); }); clobberStack(); a[0].join(); return ranOnce(0, "the lambda") + visible(); }; v.push_back(s); }
 	}
 	{ Scenario s; s.name = "threadgroup3"; s.bound = T ? 3 : 2; s.body = []() { g_body = 1; ThreadGroup<SubThread> g; g << SubThread(0) << SubThread(1) << SubThread(2); g.start(); g.join(); return chk(g_runs[0] == 1 && g_runs[1] == 1 && g_runs[2] == 1, "ThreadGroup member did not run exactly once before join() returned"); }; v.push_back(s); }
-	{ Scenario s; s.name = "threadgroup2.body2"; s.bound = -1; s.body = []() { g_body = 2; ThreadGroup<SubThread> g; g << SubThread(0) << SubThread(1); g.start(); g.join(); return chk(g_runs[0] == 1 && g_runs[1] == 1, "ThreadGroup member did not run exactly once before join() returned"); }; v.push_back(s); }
-	{ Scenario s; s.name = "parallel_invoke2"; s.bound = -1; s.body = []() { g_body = 1; Thread::parallel_invoke([]() { bodyFn(0); }, []() { bodyFn(1); }); return chk(g_runs[0] == 1 && g_runs[1] == 1, "parallel_invoke(2) must run each function exactly once before returning"); }; v.push_back(s); }
+	{ Scenario s; s.name = "threadgroup2.body2"; s.body = []() { g_body = 2; ThreadGroup<SubThread> g; g << SubThread(0) << SubThread(1); g.start(); g.join(); return chk(g_runs[0] == 1 && g_runs[1] == 1, "ThreadGroup member did not run exactly once before join() returned"); }; v.push_back(s); }
+	{ Scenario s; s.name = "parallel_invoke2"; s.body = []() { g_body = 1; Thread::parallel_invoke([]() { bodyFn(0); }, []() { bodyFn(1); }); return chk(g_runs[0] == 1 && g_runs[1] == 1, "parallel_invoke(2) must run each function exactly once before returning"); }; v.push_back(s); }
 	{ Scenario s; s.name = "parallel_invoke3"; s.bound = T ? 3 : 2; s.body = []() { g_body = 1; Thread::parallel_invoke([]() { bodyFn(0); }, []() { bodyFn(1); }, []() { bodyFn(2); }); return chk(g_runs[0] == 1 && g_runs[1] == 1 && g_runs[2] == 1, "parallel_invoke(3) must run each function exactly once before returning"); }; v.push_back(s); }
 	{ Scenario s; s.name = "parallel_invoke4"; s.bound = T ? 2 : 1; s.body = []() { g_body = 0; Thread::parallel_invoke([]() { bodyFn(0); }, []() { bodyFn(1); }, []() { bodyFn(2); }, []() { bodyFn(3); }); return chk(g_runs[0] == 1 && g_runs[1] == 1 && g_runs[2] == 1 && g_runs[3] == 1, "parallel_invoke(4) must run each function exactly once before returning"); }; v.push_back(s); }
+	// the same with functions that yield (a creator can get ahead of them) and capture a value
+	for (int b = 1; b <= 3; b += 2) { Scenario s; s.name = fmt("parallel_invoke4.body%d", b); s.bound = T ? 2 : 1; s.body = [b]() {
+		g_body = b; int k = 500;
+		Thread::parallel_invoke([k]() { bodyFn(0); g_cap[0] = k; }, [k]() { bodyFn(1); g_cap[1] = k + 1; }, [k]() { bodyFn(2); g_cap[2] = k + 2; }, [k]() { bodyFn(3); g_cap[3] = k + 3; });
+		std::string bad;
+		for (int i = 0; i < 4; i++) { if (g_runs[i] != 1) bad += fmt("function %d had run %d time(s) when parallel_invoke(4) returned, expected exactly once; ", i + 1, (int)g_runs[i]); else if (g_cap[i] != k + i) bad += fmt("function %d did not see its captured value; ", i + 1); }
+		clobberStack();
+		return bad; }; v.push_back(s); }
+	{ Scenario s; s.name = "parallel_invoke3.body3"; s.bound = T ? 3 : 2; s.body = []() {
+		g_body = 3; int k = 600;
+		Thread::parallel_invoke([k]() { bodyFn(0); g_cap[0] = k; }, [k]() { bodyFn(1); g_cap[1] = k + 1; }, [k]() { bodyFn(2); g_cap[2] = k + 2; });
+		std::string bad;
+		for (int i = 0; i < 3; i++) { if (g_runs[i] != 1) bad += fmt("function %d had run %d time(s) when parallel_invoke(3) returned, expected exactly once; ", i + 1, (int)g_runs[i]); else if (g_cap[i] != k + i) bad += fmt("function %d did not see its captured value; ", i + 1); }
+		clobberStack();
+		return bad; }; v.push_back(s); }
 	// Semaphore: k posts against k waits, no post may be lost
 	for (int k = 1; k <= 3; k++) {
-		Scenario s; s.name = fmt("semaphore.k%d", k); s.bound = -1;
+		Scenario s; s.name = fmt("semaphore.k%d", k);
 		s.body = [k]() {
 			Semaphore sem; int got = 0;
 			struct Cons : public Thread { Semaphore* s; int k; int* got; void run() { for (int i = 0; i < k; i++) { s->wait(); (*got)++; } } } c; c.s = &sem; c.k = k; c.got = &got;
@@ -53,25 +127,67 @@ static std::vector<Scenario> scenarios(bool T) {
 		};
 		v.push_back(s);
 	}
+	// Semaphore(count): the initial permits are there without any post
+	for (int k = 1; k <= 3; k++) {
+		Scenario s; s.name = fmt("semaphore.initial.k%d", k);
+		s.body = [k]() {
+			Semaphore sem(k); int got = 0;
+			struct Cons : public Thread { Semaphore* s; int k; int* got; void run() { for (int i = 0; i < k; i++) { s->wait(); (*got)++; } } } c; c.s = &sem; c.k = k; c.got = &got;
+			int v0 = sem.value();
+			c.start(); c.join();
+			return chk(v0 == k, "value() of a fresh Semaphore(k) is not k") + chk(got == k, "consumer could not take the k initial permits") + chk(sem.value() == 0, "semaphore count not 0 after k waits on Semaphore(k)");
+		};
+		v.push_back(s);
+	}
+	{ Scenario s; s.name = "semaphore.initial_plus_post"; s.body = []() {
+		Semaphore sem(1); int got = 0;
+		struct Cons : public Thread { Semaphore* s; int* got; void run() { for (int i = 0; i < 2; i++) { s->wait(); (*got)++; } } } c; c.s = &sem; c.got = &got;
+		c.start(); sem.post(); c.join();
+		return chk(got == 2, "initial permit plus one post must satisfy two waits") + chk(sem.value() == 0, "semaphore count not back to 0"); }; v.push_back(s); }
 	{ Scenario s; s.name = "semaphore.two_consumers"; s.bound = T ? -1 : 3; s.body = []() {
 		Semaphore sem; int got[2] = { 0, 0 };
 		struct Cons : public Thread { Semaphore* s; int* got; void run() { s->wait(); (*got)++; } } c1, c2; c1.s = c2.s = &sem; c1.got = &got[0]; c2.got = &got[1];
 		c1.start(); c2.start(); sem.post(2); c1.join(); c2.join();
 		return chk(got[0] == 1 && got[1] == 1, "post(2) must release both waiters"); }; v.push_back(s); }
+	{ Scenario s; s.name = "semaphore.post3"; s.bound = T ? 3 : 2; s.body = []() {
+		Semaphore sem; int got[3] = { 0, 0, 0 };
+		struct Cons : public Thread { Semaphore* s; int* got; void run() { s->wait(); (*got)++; } } c[3]; for (int i = 0; i < 3; i++) { c[i].s = &sem; c[i].got = &got[i]; }
+		for (int i = 0; i < 3; i++) c[i].start();
+		sem.post(3);
+		for (int i = 0; i < 3; i++) c[i].join();
+		return chk(got[0] == 1 && got[1] == 1 && got[2] == 1, "post(3) must release all three waiters") + chk(sem.value() == 0, "semaphore count not back to 0"); }; v.push_back(s); }
+	// trywait never blocks; every permit is either taken by a successful trywait or still there
+	{ Scenario s; s.name = "semaphore.trywait"; s.body = []() {
+		Semaphore sem; int got = 0, failed = 0;
+		struct Cons : public Thread { Semaphore* s; int* got; int* failed; void run() { for (int i = 0; i < 3; i++) { if (s->trywait()) (*got)++; else (*failed)++; } } } c; c.s = &sem; c.got = &got; c.failed = &failed;
+		c.start(); sem.post(); sem.post(); c.join();
+		if (failed) vf::add(W_TRY_FAIL); if (got) vf::add(W_TRY_OK);
+		return chk(got + sem.value() == 2, "permits taken by trywait() plus permits left do not add up to the posts") + chk(got + failed == 3, "trywait() calls lost"); }; v.push_back(s); }
+	{ Scenario s; s.name = "semaphore.trywait_initial"; s.body = []() {
+		Semaphore sem(1); bool a = sem.trywait(), b = sem.trywait(); int v1 = sem.value(); sem.post(); bool c = sem.trywait();
+		SubThread t(0); g_body = 0; t.start(); t.join();
+		return chk(a && !b && c, "trywait() on Semaphore(1): expected true, false, and true again after a post") + chk(v1 == 0 && sem.value() == 0, "semaphore count wrong after trywait()"); }; v.push_back(s); }
 	{ Scenario s; s.name = "semaphore.timedwait"; s.bound = 3; s.body = []() {
-		Semaphore sem; bool r1 = false, r2 = true;
-		struct Cons : public Thread { Semaphore* s; bool* r1; bool* r2; void run() { *r1 = s->wait(5.0); *r2 = s->wait(0.5); } } c; c.s = &sem; c.r1 = &r1; c.r2 = &r2;
+		Semaphore sem; bool r1 = false, r2 = true; std::string bad;
+		struct Cons : public Thread { Semaphore* s; bool* r1; bool* r2; std::string* bad; void run() { *r1 = semTimed(*s, 5.0, *bad); *r2 = semTimed(*s, 0.5, *bad); } } c; c.s = &sem; c.r1 = &r1; c.r2 = &r2; c.bad = &bad;
 		c.start(); sem.post(); c.join();
-		if (!r2 || !r1) vf::add(W_TIMEOUT);
-		return chk((r1 ? 1 : 0) + (r2 ? 1 : 0) + sem.value() == 1, "the single post must be consumed by exactly one timed wait or still be pending"); }; v.push_back(s); }
+		if (!r1 && !r2) vf::add(W_SEM_BOTH_TO);
+		return bad + chk((r1 ? 1 : 0) + (r2 ? 1 : 0) + sem.value() == 1, "the single post must be consumed by exactly one timed wait or still be pending"); }; v.push_back(s); }
 	// Condition under the documented protocol
-	{ Scenario s; s.name = "condition.protocol"; s.bound = -1; s.body = []() {
+	{ Scenario s; s.name = "condition.protocol"; s.body = []() {
 		Mutex m; Condition cond(m); bool ready = false; int seen = 0;
 		struct W : public Thread { Mutex* m; Condition* c; bool* ready; int* seen; void run() { m->lock(); while (!*ready) c->wait(); *seen = 1; m->unlock(); } } w; w.m = &m; w.c = &cond; w.ready = &ready; w.seen = &seen;
 		w.start();
 		m.lock(); ready = true; cond.signal(); m.unlock();
 		w.join();
 		return chk(seen == 1, "waiter did not observe the condition"); }; v.push_back(s); }
+	{ Scenario s; s.name = "condition.use"; s.body = []() { // default-constructed Condition bound to its mutex with use()
+		Mutex m; Condition cond; cond.use(m); bool ready = false; int seen = 0;
+		struct W : public Thread { Mutex* m; Condition* c; bool* ready; int* seen; void run() { m->lock(); while (!*ready) c->wait(); *seen = 1; m->unlock(); } } w; w.m = &m; w.c = &cond; w.ready = &ready; w.seen = &seen;
+		w.start();
+		m.lock(); ready = true; cond.signal(); m.unlock();
+		w.join();
+		return chk(seen == 1, "waiter on a Condition bound with use() did not observe the condition"); }; v.push_back(s); }
 	{ Scenario s; s.name = "condition.two_waiters"; s.bound = T ? -1 : 3; s.body = []() {
 		Mutex m; Condition cond(m); bool ready = false; int seen[2] = { 0, 0 };
 		struct W : public Thread { Mutex* m; Condition* c; bool* ready; int* seen; void run() { m->lock(); while (!*ready) c->wait(); *seen = 1; m->unlock(); } } w1, w2;
@@ -81,59 +197,136 @@ static std::vector<Scenario> scenarios(bool T) {
 		w1.join(); w2.join();
 		return chk(seen[0] == 1 && seen[1] == 1, "a waiter missed the signal"); }; v.push_back(s); }
 	{ Scenario s; s.name = "condition.timedwait"; s.bound = 3; s.body = []() {
-		Mutex m; Condition cond(m); bool ready = false; bool timedOut = true;
-		struct W : public Thread { Mutex* m; Condition* c; bool* ready; bool* to; void run() { m->lock(); int n = 0; while (!*ready) { if (c->wait(5.0)) n++; } *to = n > 3; m->unlock(); } } w; w.m = &m; w.c = &cond; w.ready = &ready; w.to = &timedOut;
+		Mutex m; Condition cond(m); bool ready = false; bool timedOut = true; std::string bad;
+		struct W : public Thread { Mutex* m; Condition* c; bool* ready; bool* to; std::string* bad; void run() { m->lock(); int n = 0; while (!*ready) { if (condTimed(*c, 5.0, *bad)) n++; } *to = n > 3; m->unlock(); } } w; w.m = &m; w.c = &cond; w.ready = &ready; w.to = &timedOut; w.bad = &bad;
 		w.start(); m.lock(); ready = true; cond.signal(); m.unlock(); w.join();
-		return chk(!timedOut, "timed wait kept timing out although the condition was signalled under the mutex"); }; v.push_back(s); }
+		return bad + chk(!timedOut, "timed wait kept timing out although the condition was signalled under the mutex"); }; v.push_back(s); }
+	// a timed wait nobody signals runs into its timeout at quiescence and says so
+	{ Scenario s; s.name = "condition.timedwait_unsignalled"; s.bound = 3; s.body = []() {
+		Mutex m; Condition cond(m); bool to = false; std::string bad;
+		struct W : public Thread { Mutex* m; Condition* c; bool* to; std::string* bad; void run() { m->lock(); *to = condTimed(*c, 2.0, *bad); m->unlock(); } } w; w.m = &m; w.c = &cond; w.to = &to; w.bad = &bad;
+		w.start(); w.join();
+		return bad + chk(to, "Condition::wait(2.0) that nobody signalled did not report its timeout"); }; v.push_back(s); }
 	return v;
 }
 
 static std::string runScenario(const Scenario& s, const std::string* replay, vsched::ExploreStats* out) {
 	g_case = s.name;
 	std::string verdict;
-	auto body = [&]() { for (int i = 0; i < 16; i++) g_runs[i] = 0; g_value = 0; for (int i = 0; i < 64; i++) g_hits[i] = 0; vf::asan_clear(); verdict = s.body(); if (vf::asan_tripped()) verdict += "ASan " + vf::asan_what() + "; "; };
+	auto body = [&]() { for (int i = 0; i < 16; i++) g_runs[i] = 0; g_value = 0; for (int i = 0; i < 64; i++) g_hits[i] = 0; for (int i = 0; i < 4; i++) g_cap[i] = 0; g_timeouts = 0; vf::asan_clear(); verdict = s.body(); if (vf::asan_tripped()) { verdict += "ASan " + vf::asan_what() + "; "; vf::asan_clear(); } };
 	auto after = [&](const vsched::Result& x) {
 		vf::add(C_EXEC); vf::add(C_POINTS, x.points.size()); if (x.preemptions) vf::add(W_PREEMPT);
-		if (!verdict.empty()) vf::violation("thread_contract", s.name + ": " + verdict + "schedule " + x.trace(), s.name + "|" + x.trace());
+		// run_once has let the threads that were still alive when the scenario returned run to their end: what they touched then counts too
+		if (vf::asan_tripped()) { verdict += "ASan " + vf::asan_what() + " in a thread that was still running after the scenario had returned; "; vf::asan_clear(); }
+		if (vsched::invalid_joins()) verdict += fmt("%d join()/detach call(s) on an empty, detached or already joined thread handle; ", vsched::invalid_joins());
+		int early = 0, readyPts = 0;
+		for (size_t i = 0; i < x.points.size(); i++) { const vsched::PointInfo& q = x.points[i]; if (q.ntimer && q.chosen >= q.nenabled - q.ntimer) early++; if (q.kind == 20) readyPts++; }
+		if (early) vf::add(W_EARLY);
+		if (g_timeouts > early) vf::add(W_TIMEOUT);
+		if (readyPts && W_READY_POINT >= 0) vf::add(W_READY_POINT, readyPts);
+		if (!verdict.empty()) {
+			std::string sig = s.sig, desc = s.name + ": " + verdict + "schedule " + x.trace();
+			// the one failure of this scenario family that is classified on its own (everything else it may show stays thread_contract)
+			if (s.name.compare(0, 13, "array_lambda.") == 0 && (verdict == "ASan stack-use-after-scope; " || verdict == "ASan stack-use-after-scope in a thread that was still running after the scenario had returned; ")) sig = "moved_lambda_thread_writes_dead_object";
+			if (sig != s.sig && vf::known(sig)) vf::known_hit(sig, desc); else vf::violation(sig, desc, s.name + "|" + x.trace());
+			if (getenv("VF_DEBUG")) { FILE* df = fopen(getenv("VF_DEBUG"), "a"); if (df) { fprintf(df, "VIOL %s %s %s\n", s.name.c_str(), sig.c_str(), verdict.c_str()); fclose(df); } }
+		}
 	};
 	if (replay) { vsched::Result x = vsched::run_once(vsched::parse_schedule(*replay), body); after(x); return verdict; }
 	vsched::ExploreStats st = vsched::explore(body, after, s.bound);
 	if (out) *out = st;
 	vf::add(C_JOBS); vf::add(C_STATES, st.distinct_states);
+	// vacuity guard per scenario: one with threads and a non-zero bound must have had executions in which a running thread was preempted
+	if (s.threads && s.bound != 0) { vf::add(C_EXPECT_PRE); if (st.with_preemption) vf::add(C_WITH_PRE); else fprintf(stderr, "HARNESS ERROR: scenario %s had no execution with a preemption\n", s.name.c_str()); }
 	return "";
 }
 
-// parallel_for(i0, i1, f, n): f exactly once for every index in [i0,i1), no other index, and everything done on return
-static Scenario pforScenario(int i0, int i1, int n, int bound, bool yieldInF) {
-	Scenario s; s.name = fmt("parallel_for.%d.%d.%d.b%d.y%d", i0, i1, n, bound, (int)yieldInF); s.bound = bound;
-	s.body = [i0, i1, n, yieldInF]() {
-		Thread::parallel_for(i0, i1, [yieldInF](int i) { if (yieldInF) vsched::point(); if (i >= -8 && i < 56) g_hits[i + 8]++; else g_hits[0] += 1000; }, n);
+// parallel_for(i0, i1, f, n): f exactly once for every index in [i0,i1), no other index, and everything done on return.
+// mode 0: f does not yield; 1: f is a schedule point (every call); 2: the k-th thread stops at its first index until another thread has stepped
+// (a forced switch: under bound 0 the creator gets ahead of that thread, which then competes with every later thread);
+// 3: every thread sleeps at its first index, thread j for j+1 (k = 0) or nn-j (k = 1) virtual milliseconds: under bound 0 the creator reaches
+// its join loop while NO thread has done its work, and the threads then finish in ascending / descending order. n < 0: the 3-argument form.
+static int g_pforForced, g_pforSlept;
+static void pforFn(int i) { vsched::point(); if (i >= -8 && i < 56) g_hits[i + 8]++; else g_hits[0] += 1000; }
+static Scenario pforScenario(int i0, int i1, int n, int bound, int mode, int k = 0, bool fnptr = false) {
+	Scenario s; s.bound = bound;
+	std::string ns = n < 0 ? std::string("def") : fmt("%d", n);
+	s.name = fnptr ? fmt("parallel_for_fnptr.%d.%d.%s.b%d", i0, i1, ns.c_str(), bound) : mode == 2 ? fmt("parallel_for.%d.%d.%s.b%d.s%d", i0, i1, ns.c_str(), bound, k) : mode == 3 ? fmt("parallel_for.%d.%d.%s.b%d.t%d", i0, i1, ns.c_str(), bound, k) : fmt("parallel_for.%d.%d.%s.b%d.y%d", i0, i1, ns.c_str(), bound, mode);
+	int nn = std::min(n < 0 ? 8 : n, i1 - i0);
+	s.threads = nn >= 1;
+	s.body = [i0, i1, n, nn, mode, k, fnptr]() {
+		g_pforForced = 0; g_pforSlept = 0;
+		auto f = [mode, i0, k, nn](int i) { if (mode == 1) vsched::point(); else if (mode == 2 && i == i0 + k) { g_pforForced++; vsched::yield_spin(0); } else if (mode == 3 && i - i0 < nn) { g_pforSlept++; usleep(1000 * (k ? nn - (i - i0) : i - i0 + 1)); } if (i >= -8 && i < 56) g_hits[i + 8]++; else g_hits[0] += 1000; };
+		if (fnptr) Thread::parallel_for(i0, i1, &pforFn, n);
+		else if (n < 0) { Thread::parallel_for(i0, i1, f); vf::add(W_DEFAULT_NTH); }
+		else Thread::parallel_for(i0, i1, f, n);
+		clobberStack();
+		if (g_pforForced) vf::add(W_YIELD_FORCED);
+		if (g_pforSlept) vf::add(W_ALL_BEHIND);
 		std::string bad;
-		for (int i = -8; i < 56; i++) { int want = (i >= i0 && i < i1) ? 1 : 0; if (g_hits[i + 8] != want) { bad = fmt("f(%d) was invoked %d time(s) by the time parallel_for(%d, %d, f, %d) returned, expected %d", i, (int)g_hits[i + 8], i0, i1, n, want); break; } }
+		for (int i = -8; i < 56; i++) { int want = (i >= i0 && i < i1) ? 1 : 0; if (g_hits[i + 8] != want) { bad = fmt("f(%d) was invoked %d time(s) by the time parallel_for(%d, %d, f%s) returned, expected %d", i, (int)g_hits[i + 8], i0, i1, n < 0 ? "" : fmt(", %d", n).c_str(), want); break; } }
 		return bad.empty() ? bad : bad + "; ";
 	};
 	return s;
 }
 
+// this binary runs with ASan's stack-use-after-return detection (vf's default options switch it off for all harnesses)
+static void enableUseAfterReturn(char** argv) {
+	const char* o = getenv("ASAN_OPTIONS"); std::string s = o ? o : "";
+	if (s.find("detect_stack_use_after_return=") != std::string::npos) return;
+	s += std::string(s.empty() ? "" : ":") + "detect_stack_use_after_return=1:max_uar_stack_size_log=16";
+	setenv("ASAN_OPTIONS", s.c_str(), 1);
+	execv("/proc/self/exe", argv); // only returns on failure: then w.stack_use_after_return_detection_on stays 0 and the run is reported as a harness error
+}
+static __attribute__((noinline)) void escape(volatile int* p) { *p = 1; }
+static __attribute__((noinline)) bool uarActive() { volatile int probe = 0; escape(&probe); return __asan_get_current_fake_stack && __asan_get_current_fake_stack() != 0; }
+
 int main(int argc, char** argv) {
+	if (vf::have_asan()) enableUseAfterReturn(argv);
 	vf::init(argc, argv, "C13", "s_c13_threads");
 	C_EXEC = vf::counter("traces"); C_POINTS = vf::counter("transitions"); C_JOBS = vf::counter("scenarios"); W_PREEMPT = vf::counter("w.executions_with_preemption"); C_STATES = vf::counter("states"); W_TIMEOUT = vf::counter("w.timed_wait_timeouts_fired_at_quiescence");
+	W_EARLY = vf::counter("w.executions_with_early_timeout_deviation"); W_SEM_TO = vf::counter("w.semaphore_timed_wait_timed_out"); W_SEM_BOTH_TO = vf::counter("w.semaphore_both_timed_waits_timed_out"); W_SEM_ACQ = vf::counter("w.semaphore_timed_wait_acquired");
+	W_COND_TO = vf::counter("w.condition_timed_wait_timed_out"); W_COND_SIG = vf::counter("w.condition_timed_wait_signalled");
+	W_WORKER_FIRST = vf::counter("w.thread_finished_before_creator_resumed"); W_CREATOR_FIRST = vf::counter("w.creator_resumed_before_thread_finished");
+	W_TRY_FAIL = vf::counter("w.trywait_found_no_permit"); W_TRY_OK = vf::counter("w.trywait_took_permit"); W_YIELD_FORCED = vf::counter("w.parallel_for_creator_got_ahead_at_bound0"); W_DEFAULT_NTH = vf::counter("w.parallel_for_default_thread_count"); W_ALL_BEHIND = vf::counter("w.parallel_for_creator_ahead_of_all_threads_at_bound0");
+	W_COPY_RUNNING = vf::counter("w.thread_copied_while_running"); W_UAR = vf::counter("w.stack_use_after_return_detection_on");
+	C_EXPECT_PRE = vf::counter("scenarios_expecting_preemption"); C_WITH_PRE = vf::counter("scenarios_with_preemption"); C_SKIPPED = vf::counter("scenarios_skipped_deadline");
+#ifdef ASL_VERIF_HAVE_READY_POINT
+	W_READY_POINT = vf::counter("w.ready_flag_points");
+#endif
 	vsched::set_fatal_handler(onFatal);
+	vsched::set_strict_joins(true);
 	bool T = vf::opt.thorough();
 	std::vector<Scenario> sc = scenarios(T);
 	// parallel_for: small ranges under all schedules within a preemption bound, with a yield inside f
-	for (int i0 = -3; i0 <= 6; i0++) for (int i1 = -3; i1 <= 6; i1++) for (int n = 1; n <= 4; n++) { if (i1 - i0 > 5 && n > 3) continue; sc.push_back(pforScenario(i0, i1, n, (i1 - i0 <= 3 || n <= 2) ? (T ? 3 : 2) : (T ? 2 : 1), true)); }
+	for (int i0 = -3; i0 <= 6; i0++) for (int i1 = -3; i1 <= 6; i1++) for (int n = 1; n <= 4; n++) { if (i1 - i0 > 5 && n > 3) continue; sc.push_back(pforScenario(i0, i1, n, (i1 - i0 <= 3 || n <= 2) ? (T ? 3 : 2) : (T ? 2 : 1), 1)); }
+	// ... with a plain function instead of a lambda
+	sc.push_back(pforScenario(0, 5, 2, 2, 1, 0, true)); sc.push_back(pforScenario(-3, 4, 3, T ? 2 : 1, 1, 0, true)); sc.push_back(pforScenario(2, 2, 1, 2, 1, 0, true));
 	// every range -3..40 and thread count 1..12 under all non-preemptive schedules (bound 0: creator-first, worker-first at every forced switch)
-	for (int i0 = -3; i0 <= 40; i0++) for (int i1 = -3; i1 <= 40; i1++) for (int n = 1; n <= 12; n++) sc.push_back(pforScenario(i0, i1, n, 0, false));
-	if (T) for (int i0 = -3; i0 <= 12; i0++) for (int i1 = i0; i1 <= 12; i1++) for (int n = 1; n <= 6; n++) sc.push_back(pforScenario(i0, i1, n, 1, false));
+	for (int i0 = -3; i0 <= 40; i0++) for (int i1 = -3; i1 <= 40; i1++) for (int n = 1; n <= 12; n++) sc.push_back(pforScenario(i0, i1, n, 0, 0));
+	// the 3-argument form (default thread count)
+	for (int i0 = -3; i0 <= 40; i0++) for (int i1 = -3; i1 <= 40; i1++) sc.push_back(pforScenario(i0, i1, -1, 0, 0));
+	// the same ranges and thread counts with threads that sleep at their first index: the creator reaches its join loop ahead of every thread
+	for (int i0 = -3; i0 <= 40; i0++) for (int i1 = i0 + 1; i1 <= 40; i1++) for (int n = 1; n <= 12; n++) { sc.push_back(pforScenario(i0, i1, n, 0, 3, 0)); if (std::min(n, i1 - i0) >= 2) sc.push_back(pforScenario(i0, i1, n, 0, 3, 1)); }
+	for (int i0 = -3; i0 <= 40; i0++) for (int i1 = i0 + 1; i1 <= 40; i1++) sc.push_back(pforScenario(i0, i1, -1, 0, 3, 0));
+	// ... and with one thread k that lets its creator get ahead and then competes with the later threads (quick: n <= 3, every k; thorough: also n <= 12, first and last thread)
+	for (int i0 = -3; i0 <= 40; i0++) for (int i1 = i0 + 1; i1 <= 40; i1++) for (int n = 1; n <= 12; n++) { int nn = std::min(n, i1 - i0); for (int k = 0; k < nn; k++) if (n <= 3 || (T && (k == 0 || k == nn - 1))) sc.push_back(pforScenario(i0, i1, n, 0, 2, k)); }
+	if (T) for (int i0 = -3; i0 <= 12; i0++) for (int i1 = i0; i1 <= 12; i1++) for (int n = 1; n <= 6; n++) sc.push_back(pforScenario(i0, i1, n, 1, 0));
 	if (vf::opt.replay) {
 		std::string k = vf::opt.kase, sched; size_t bar = k.find('|'); if (bar != std::string::npos) { sched = k.substr(bar + 1); k = k.substr(0, bar); }
-		for (size_t i = 0; i < sc.size(); i++) if (sc[i].name == k) { vf::parallel(1, [&](uint64_t) { runScenario(sc[i], &sched, 0); }); break; }
+		bool found = false;
+		for (size_t i = 0; i < sc.size(); i++) if (sc[i].name == k) { found = true; vf::parallel(1, [&](uint64_t) { vf::cur(sc[i].name); runScenario(sc[i], &sched, 0); }); break; }
+		if (!found) { fprintf(stderr, "HARNESS ERROR: no scenario named %s\n", k.c_str()); return 2; }
 		return vf::finish();
 	}
-	vf::parallel(sc.size(), [&](uint64_t i) { vf::cur(sc[i].name); if (vf::deadline_passed()) { vf::cap_hit("deadline"); return; } vsched::ExploreStats st; runScenario(sc[i], 0, &st); if (getenv("VF_DEBUG")) fprintf(stderr, "%s: %llu executions\n", sc[i].name.c_str(), (unsigned long long)st.executions); });
+	vf::parallel(sc.size(), [&](uint64_t i) { vf::cur(sc[i].name); if (vf::deadline_passed()) { vf::add(C_SKIPPED); vf::cap_hit("deadline"); return; } if (i == 0 && uarActive()) vf::add(W_UAR); vsched::ExploreStats st; runScenario(sc[i], 0, &st); if (getenv("VF_DEBUG")) { FILE* df = fopen(getenv("VF_DEBUG"), "a"); if (df) { fprintf(df, "%s %llu %llu\n", sc[i].name.c_str(), (unsigned long long)st.executions, (unsigned long long)st.points); fclose(df); } } });
 	vf::setinfo("scenarios", fmt("%d", (int)sc.size()));
 	vf::sample("lambda.body0: Thread t([]{}); t.join(); t.finished() - all schedules of creator / worker / ready-flag spin");
-	vf::sample("parallel_for(-3, 2, f, 3) with a yield inside f, all schedules with <= 1 preemption; parallel_for(i0, i1, f, n) for every -3<=i0,i1<=14, n<=6 under every non-preemptive schedule");
-	return vf::finish();
+	vf::sample("parallel_for(-3, 2, f, 3) with a yield inside f, all schedules with <= 1 preemption; parallel_for(i0, i1, f, n) for every -3<=i0,i1<=40, n<=12 (and the 3-argument form) under every non-preemptive schedule, plain and with one thread that lets its creator get ahead");
+	int rc = vf::finish();
+	// a skipped scenario or a scenario that never saw a preemption makes the tier fail: the bounds registered for it were not explored
+	bool herr = false;
+	if (vf::get(C_SKIPPED)) { fprintf(stderr, "HARNESS ERROR: %llu scenario(s) skipped because the deadline had passed\n", (unsigned long long)vf::get(C_SKIPPED)); herr = true; }
+	if (vf::get(C_WITH_PRE) != vf::get(C_EXPECT_PRE)) { fprintf(stderr, "HARNESS ERROR: %llu of %llu scenario(s) with threads and a preemption budget had no execution with a preemption\n", (unsigned long long)(vf::get(C_EXPECT_PRE) - vf::get(C_WITH_PRE)), (unsigned long long)vf::get(C_EXPECT_PRE)); herr = true; }
+	return rc ? rc : herr ? 2 : 0;
 }
